@@ -26,19 +26,100 @@ Definition c_lookup (v:cver) (o l id:N) : look :=
   ext_ok := fun v e => (c_ext v =? 0) || (e =? c_ext v);
   root := c_root; dir_lookup := c_lookup; leaf_base := c_leaf_base; tile_base := c_tile_base }.
 
-(* run the event loop until both queues are empty (request messages first, oldest first) *)
-Fixpoint settle (fuel:nat) (s:sys) : sys :=
+(* ---- the loop's byte accounting and LRU list (server.go:115-123,131-133,211-229), kept beside the abstract state.
+   Elements carry an id because re-inserting a cached key leaves the old element in the list as an orphan whose later
+   eviction deletes the map entry of the same key.  Evictions are applied to the abstract state as LEvict labels, so
+   every run of this scheduler is a run of the LTS. *)
+Record xstate := mkX {
+  x_sys : sys;
+  x_lru : list (nat * key * N);      (* evictList, front first: (element id, key, size) *)
+  x_map : list (key * nat);          (* cache map: key -> element id *)
+  x_total : Z;                       (* totalSize *)
+  x_limit : Z;                       (* cacheSize * 1000 * 1000 *)
+  x_nid : nat }.
+Definition xinit (limit:Z) : xstate := mkX init [] [] 0 limit 0.
+
+Definition entry_size (cv:cval) : N :=
+  match cv_pay cv with
+  | Some (PHeader _) => 127
+  | Some (PDir v o l) => 24 * match lookup_dir (c_dirs v) o l with Some es => N.of_nat (length es) | None => 0 end
+  | None => 0
+  end.
+Fixpoint map_get (k:key) (m:list (key*nat)) : option nat :=
+  match m with [] => None | (k', i) :: r => if key_eqb k k' then Some i else map_get k r end.
+Definition map_del (k:key) (m:list (key*nat)) := filter (fun p => negb (key_eqb k (fst p))) m.
+Definition lru_del (i:nat) (l:list (nat*key*N)) := filter (fun e => negb (Nat.eqb (fst (fst e)) i)) l.
+Definition lru_size (i:nat) (l:list (nat*key*N)) : Z :=
+  match find (fun e => Nat.eqb (fst (fst e)) i) l with Some e => Z.of_N (snd e) | None => 0%Z end.
+Definition lru_front (i:nat) (l:list (nat*key*N)) :=
+  match find (fun e => Nat.eqb (fst (fst e)) i) l with Some e => e :: lru_del i l | None => l end.
+
+(* purge: every MAPPED element of the archive whose key tag or value tag is the purged tag *)
+Definition xpurge (x:xstate) (n p:N) : xstate :=
+  let victims := filter (fun kc => (kn (fst kc) =? n) && ((ke (fst kc) =? p) || (cv_etag (snd kc) =? p))) (cache (x_sys x)) in
+  fold_left (fun x kc =>
+      match map_get (fst kc) (x_map x) with
+      | Some i => mkX (x_sys x) (lru_del i (x_lru x)) (map_del (fst kc) (x_map x)) (x_total x - lru_size i (x_lru x)) (x_limit x) (x_nid x)
+      | None => x end) victims x.
+
+Definition xloop_req (x:xstate) (m:nat) : option xstate :=
+  match split_req m (reqq (x_sys x)) with
+  | None => None
+  | Some (_, (_, _, k, p), _) =>
+    let x1 := if p =? 0 then x else xpurge x (kn k) p in
+    match exec (x_sys x) (LLoopReq m) with
+    | None => None
+    | Some s' =>
+      (* a hit moves the mapped element to the front *)
+      let lru' := match map_get k (x_map x1) with Some i => lru_front i (x_lru x1) | None => x_lru x1 end in
+      Some (mkX s' lru' (x_map x1) (x_total x1) (x_limit x1) (x_nid x1))
+    end
+  end.
+
+(* the eviction loop: remove from the back while totalSize >= limit; stops when the list is empty *)
+Fixpoint xevict (fuel:nat) (x:xstate) : xstate :=
   match fuel with
-  | O => s
+  | O => x
   | S f =>
-    match reqq s with
-    | (m, _, _, _) :: _ => match exec s (LLoopReq m) with Some s' => settle f s' | None => s end
-    | [] => match respq s with
-            | (k, _) :: _ => match exec s (LLoopResp k) with Some s' => settle f s' | None => s end
-            | [] => s
+    if (x_total x <? x_limit x)%Z then x else
+    match rev (x_lru x) with
+    | [] => x
+    | (i, k, sz) :: _ =>
+      let s' := match exec (x_sys x) (LEvict k) with Some s' => s' | None => x_sys x end in
+      xevict f (mkX s' (lru_del i (x_lru x)) (map_del k (x_map x)) (x_total x - Z.of_N sz) (x_limit x) (x_nid x))
+    end
+  end.
+
+Definition xloop_resp (x:xstate) (k:key) : option xstate :=
+  match split_key k (respq (x_sys x)) with
+  | None => None
+  | Some (_, (k', cv), _) =>
+    match exec (x_sys x) (LLoopResp k) with
+    | None => None
+    | Some s' =>
+      if cv_ok cv then
+        let sz := entry_size cv in
+        let i := x_nid x in
+        Some (xevict (S (length (x_lru x))) (mkX s' ((i, k', sz) :: x_lru x) ((k', i) :: map_del k' (x_map x)) (x_total x + Z.of_N sz) (x_limit x) (S i)))
+      else Some (mkX s' (x_lru x) (x_map x) (x_total x) (x_limit x) (x_nid x))
+    end
+  end.
+
+(* run the event loop until both queues are empty (request messages first, oldest first) *)
+Fixpoint settle (fuel:nat) (x:xstate) : xstate :=
+  match fuel with
+  | O => x
+  | S f =>
+    match reqq (x_sys x) with
+    | (m, _, _, _) :: _ => match xloop_req x m with Some x' => settle f x' | None => x end
+    | [] => match respq (x_sys x) with
+            | (k, _) :: _ => match xloop_resp x k with Some x' => settle f x' | None => x end
+            | [] => x
             end
     end
   end.
+Definition on_sys (x:xstate) (o:option sys) : option xstate :=
+  option_map (fun s' => mkX s' (x_lru x) (x_map x) (x_total x) (x_limit x) (x_nid x)) o.
 
 (* the bucket call a pending fetch / tile read is blocked in: (name, etag, offset, length) *)
 Definition root_fetch_len : N := Z.to_N Generated.root_fetch_len.
@@ -66,35 +147,36 @@ Definition find_tile_reader (c:N*N*N*N) (s:sys) : option nat :=
   match find (fun p => match call_of_handler (snd p) with Some c' => call_eqb c' c | None => false end) (rev (handlers s)) with
   | Some p => Some (fst p) | None => None end.
 
-Definition macro (s:sys) (m:mstep) : option sys :=
+Definition macro (x:xstate) (m:mstep) : option xstate :=
   let fuel := 2000%nat in
-  match m with
-  | MStart rid name z x y ext =>
-      option_map (settle fuel) (exec s (LStart rid (mkQ name z ext (zxy_to_id z x y))))
+  let s := x_sys x in
+  option_map (settle fuel)
+  (match m with
+  | MStart rid name z x' y ext => on_sys x (exec s (LStart rid (mkQ name z ext (zxy_to_id z x' y))))
   | MRelease name etag o l =>
       match find_fetch (name, etag, o, l) s with
-      | Some k => option_map (settle fuel) (exec s (LFetchDo k))
+      | Some k => on_sys x (exec s (LFetchDo k))
       | None => match find_tile_reader (name, etag, o, l) s with
-                | Some rid => option_map (settle fuel) (exec s (LTileDo rid))
+                | Some rid => on_sys x (exec s (LTileDo rid))
                 | None => None
                 end
       end
   | MFault name etag o l kind =>
       match find_fetch (name, etag, o, l) s with
-      | Some k => option_map (settle fuel) (exec s (LFetchFail k (match kind with FRefresh => true | _ => false end)))
+      | Some k => on_sys x (exec s (LFetchFail k (match kind with FRefresh => true | _ => false end)))
       | None => match find_tile_reader (name, etag, o, l) s with
                 | Some rid => match kind with
                               | FBadBytes => None   (* wrong bytes returned as success by a tile read cannot be detected: not injected *)
-                              | FRefresh => option_map (settle fuel) (exec s (LTileFail rid TFRefresh))
-                              | FMidstream => option_map (settle fuel) (exec s (LTileFail rid TFRead))
-                              | _ => option_map (settle fuel) (exec s (LTileFail rid TFError))
+                              | FRefresh => on_sys x (exec s (LTileFail rid TFRefresh))
+                              | FMidstream => on_sys x (exec s (LTileFail rid TFRead))
+                              | _ => on_sys x (exec s (LTileFail rid TFError))
                               end
                 | None => None
                 end
       end
-  | MReplace name v => option_map (settle fuel) (exec s (LReplace name v))
-  | MDelete name => option_map (settle fuel) (exec s (LDelete name))
-  end.
+  | MReplace name v => on_sys x (exec s (LReplace name v))
+  | MDelete name => on_sys x (exec s (LDelete name))
+  end).
 
 (* responses as the HTTP client sees them: status and body *)
 Definition status_body (r:resp) : N * bytes :=
